@@ -41,18 +41,21 @@ def checkDuplicates (virt : List String) : List Signal → List String → Optio
     if seen.contains s.name then some ("DuplicateSignal " ++ s.name)
     else checkDuplicates virt rest (seen ++ [s.name])
 
+/-- the index a signal gets from looking its column up by name in the header -/
+def idxOf (hdr : List String) (name : String) (sig : Nat) : EIdx :=
+  match posOf (fun n => n == name) hdr with
+  | some col => .entry col sig
+  | none => .dflt sig
+
 /-- one round of the `for` of `build_indices`: contributions of signal number `i` -/
 def indicesFor (hdr : List String) (i : Nat) (s : Signal) : List EIdx × List EIdx :=
-  let index := posOf (fun n => n == s.name) hdr
-  let indexOut := posOf (fun n => n == s.name ++ "_out") hdr
-  let mk : Option Nat → EIdx := fun o => match o with | some c => .entry c i | none => .dflt i
   let ins := match s.typ with
-    | .input _ | .bidir _ => [mk index]
+    | .input _ | .bidir _ => [idxOf hdr s.name i]
     | _ => []
   let exps := match s.typ with
     | .input _ => []
-    | .bidir _ => [mk indexOut]
-    | .output | .virt _ => [mk index]
+    | .bidir _ => [idxOf hdr (s.name ++ "_out") i]
+    | .output | .virt _ => [idxOf hdr s.name i]
   (ins, exps)
 
 /-- `build_indices` -/
